@@ -4,7 +4,7 @@
    (Generated/Gen_Strop.v: reserved lists incl. Python's keywords+builtins, reserved patterns and
    encoding rules as regex ASTs, prefixes, handler kinds) and with the interpreter's \s \d isspace tables.
    Strings are lists of code points; identifier types are arbitrary strings. *)
-From Verif Require Import StropInst StropThmRe StropThmEnc StropThm StropThmPipe StropThmCache StropThmInst Gen_Pin_strop_methods.
+From Verif Require Import StropInst StropThmRe StropThmEnc StropThm StropThmPipe StropThmCache StropThmInst StropKeywords StropThmKw Gen_Pin_strop_methods.
 Open Scope N_scope.
 
 (* ---- source tie of the model itself ----
@@ -13,8 +13,8 @@ Open Scope N_scope.
        each `except` consults, the final re-verification); it IS the list the model was written for, and the model's `strop`
        is its interpretation (run_pipeline) -- for the shipped and for every override configuration;
    (b) the methods the steps call (_encode, _strop_by_keyword, _strop_by_pattern, _do_for_type_and_all, _matches,
-       _encoding_filter, encode_character, __init__, the `any` synthesis) and Language.filter_id / _token_encoder of c, cpp, py,
-       default_filter_id_for_target, filter_short_reference_name have the normalised AST the hand model was written for. *)
+       _encoding_filter, encode_character, __init__, the `any` synthesis), Language._token_encoder of c, cpp, py and
+       filter_short_reference_name have the normalised AST the hand model was written for (filter_id: see (d)). *)
 Theorem pipeline_is_model : strop_pipeline = model_pipeline strop_reverifies.
 Proof. exact pipeline_is_model_thm. Qed.
 Print Assumptions pipeline_is_model.
@@ -33,6 +33,24 @@ Print Assumptions handlers_translated_are_model.
 
 Example nv_handlers_translated : handlers_translated <> [].
 Proof. discriminate. Qed.
+
+(* (d) the property's observable Language.filter_id(instance, id_type): default_filter_id_for_target and the filter_id bodies of
+       c, cpp, py are translated (cases / steps as data) and ARE the model StropInst.filter_id =
+       strop(default_filter_id(instance), id_type); `instance` is an object with a `name` attribute or anything else (str()). *)
+Theorem filter_id_is_model :
+  default_id_rule = model_default_rule
+  /\ filter_id_steps_c = model_filter_id_steps /\ filter_id_steps_cpp = model_filter_id_steps /\ filter_id_steps_py = model_filter_id_steps
+  /\ forall i, run_default default_id_rule i = Some (default_filter_id i).
+Proof. exact filter_id_is_model_thm. Qed.
+Print Assumptions filter_id_is_model.
+
+(* the whole property on the observable: whatever the instance, if its name is non-empty a token is returned, and it is a valid
+   identifier, not reserved, free of reserved patterns and not a keyword of the language *)
+Theorem filter_id_total_and_sound : forall l (i : inst) (ty : str), default_filter_id i <> [] -> str_eqb (lower ty) ty_all = false ->
+  exists t, filter_id l i ty = Ok t /\ valid_ident t = true /\ reserved_lang l t = false /\ pattern_lang l ty t = false
+            /\ ~ In t (lang_keywords l).
+Proof. exact filter_id_total_sound_thm. Qed.
+Print Assumptions filter_id_total_and_sound.
 
 Example C09_strop_methods_shape_pinned : pin_strop_methods_ok = true.
 Proof. reflexivity. Qed.
@@ -123,32 +141,71 @@ Theorem py_reserved_covers_interpreter :
 Proof. exact py_reserved_covers_interpreter_thm. Qed.
 Print Assumptions py_reserved_covers_interpreter.
 
-(* ---- identity: a valid identifier that is not reserved and matches no reserved pattern is returned unchanged ---- *)
-(* clean_lang l ty t = valid_ident t && not reserved && matches no reserved pattern of `all`/ty *)
-Theorem strop_id_c : forall (ty t : str), str_eqb (lower ty) ty_all = false -> clean_lang LC ty t = true -> strop_c ty t = Ok t.
-Proof. exact strop_id_c_thm. Qed.
-Print Assumptions strop_id_c.
+(* ---- NOT A KEYWORD OF THE LANGUAGE (independent of properties.yaml).  Gen/StropKeywords.v is a committed table: ISO C11 6.4.1,
+   ISO C++20 [lex.key] + alternative tokens, keyword.kwlist of Python 3.12 (mirrored by tools/checks/c09_keywords.py, which
+   c06_dsdlgen.pools can import).  lang_keywords LC = lang_keywords LCpp = C11 + C++20 + alternative tokens (C headers are
+   included from C++), lang_keywords LPy = the 35 hard keywords.  Stated on the regenerated configuration: removing a keyword
+   from properties.yaml or from PYTHON_RESERVED_IDENTIFIERS breaks these obligations. ---- *)
+Theorem language_keywords_are_reserved : forall l w, In w (lang_keywords l) -> reserved_lang l w = true /\ valid_ident w = true.
+Proof. exact keywords_reserved_thm. Qed.
+Print Assumptions language_keywords_are_reserved.
 
-Theorem strop_id_py : forall (ty t : str), str_eqb (lower ty) ty_all = false -> clean_lang LPy ty t = true -> strop_py ty t = Ok t.
-Proof. exact strop_id_py_thm. Qed.
-Print Assumptions strop_id_py.
+(* whatever is returned, for ANY input string and id type, is not a keyword of the language *)
+Theorem strop_never_keyword : forall l (ty s t : str), s <> [] -> strop_lang l ty s = Ok t -> ~ In t (lang_keywords l).
+Proof. exact strop_never_keyword_thm. Qed.
+Print Assumptions strop_never_keyword.
 
-(* cpp: the unrestricted statement is false of the faithful model (witness `__x`, any): the configuration encodes leading and
-   trailing runs of underscores (rules ^_{2,} and _{2,}$).  Excluded trigger: has_dunder t (the token contains `__`). *)
-Theorem strop_id_cpp_refuted :
-  exists ty t, str_eqb (lower ty) ty_all = false /\ clean_lang LCpp ty t = true /\ strop_cpp ty t <> Ok t.
-Proof. exact strop_id_cpp_refuted_thm. Qed.
-Print Assumptions strop_id_cpp_refuted.
+(* a keyword used as a name comes back as a DIFFERENT token, which is not a keyword either *)
+Theorem keyword_is_stropped : forall l (ty w : str), In w (lang_keywords l) -> str_eqb (lower ty) ty_all = false ->
+  exists t, strop_lang l ty w = Ok t /\ t <> w /\ ~ In t (lang_keywords l).
+Proof. exact keyword_is_stropped_thm. Qed.
+Print Assumptions keyword_is_stropped.
 
-Theorem strop_id_cpp_partial : forall (ty t : str),
-  str_eqb (lower ty) ty_all = false -> clean_lang LCpp ty t = true -> has_dunder t = false -> strop_cpp ty t = Ok t.
-Proof. exact strop_id_cpp_partial_thm. Qed.
-Print Assumptions strop_id_cpp_partial.
+(* self-test of the committed Python table: the interpreter that runs nunavut has exactly these hard keywords *)
+Theorem py_keywords_match_interpreter :
+  (forall w, In w py_kwlist -> In w py312_keywords) /\ (forall w, In w py312_keywords -> In w py_kwlist).
+Proof. exact py_keywords_match_interpreter_thm. Qed.
+Print Assumptions py_keywords_match_interpreter.
+
+(* identifiers reserved by the standards whatever the configuration says -- C11 7.1.3 / C++ [lex.name] 3.2: `_` followed by an
+   upper-case letter or another `_` (und_reserved, Gen/Strop.v): never returned by the C or the C++ encoder *)
+Theorem strop_never_und_reserved : forall l (ty s t : str), (l = LC \/ l = LCpp) -> s <> [] ->
+  strop_lang l ty s = Ok t -> und_reserved t = false.
+Proof. exact strop_never_und_reserved_thm. Qed.
+Print Assumptions strop_never_und_reserved.
+
+(* C++ [lex.name] 3.1 also reserves identifiers that CONTAIN `__`; "no `__` in the output of the cpp encoder" is FALSE: an inner
+   `__` survives (a__b -> a__b).  Disposition: outside C09's wording ("reserved under that language's configuration" -- the
+   configuration has no such pattern; leading and trailing runs are encoded); excluded in MANIFEST.text, reported to the lead as
+   a candidate configuration change ('__' as a reserved/encoded pattern for cpp).  Partial: strop_never_und_reserved (no leading
+   `__`) above. *)
+Theorem strop_cpp_no_dunder_refuted : exists ty s t, strop_cpp ty s = Ok t /\ has_dunder t = true.
+Proof. exact strop_cpp_inner_dunder_thm. Qed.
+Print Assumptions strop_cpp_no_dunder_refuted.
+
+(* ---- clause 3: "strings that are already valid, unreserved identifiers are returned unchanged" -- stated for the documented
+   alphabet.  clean_ascii l ty t  =  t is ASCII [A-Za-z_][A-Za-z0-9_]*  /\  not in the reserved list  /\  matches no reserved
+   pattern of `all`/ty  /\  (cpp only) contains no `__` (C++ [lex.name] 3.1 reserves every such identifier; the configuration
+   encodes leading/trailing runs with the rules ^_{2,}, _{2,}$, so `__x` and `x__` are rewritten -- correctly).
+   NOT claimed: identifiers outside ASCII.  DSDL names are ASCII and the encoder's output alphabet is ASCII by design
+   ([^a-zA-Z0-9_]+ is encoded), so a Unicode name that Python 3 itself would accept (`é`) is encoded (`zX00E9`): see
+   nv_py_non_ascii_is_encoded; MANIFEST.text and design_notes/C09.md state this restriction of the clause. ---- *)
+Theorem strop_id_c_ascii : forall (ty t : str), str_eqb (lower ty) ty_all = false -> clean_ascii LC ty t = true -> strop_c ty t = Ok t.
+Proof. exact (strop_id_ascii_thm LC). Qed.
+Print Assumptions strop_id_c_ascii.
+
+Theorem strop_id_cpp_ascii : forall (ty t : str), str_eqb (lower ty) ty_all = false -> clean_ascii LCpp ty t = true -> strop_cpp ty t = Ok t.
+Proof. exact (strop_id_ascii_thm LCpp). Qed.
+Print Assumptions strop_id_cpp_ascii.
+
+Theorem strop_id_py_ascii : forall (ty t : str), str_eqb (lower ty) ty_all = false -> clean_ascii LPy ty t = true -> strop_py ty t = Ok t.
+Proof. exact (strop_id_ascii_thm LPy). Qed.
+Print Assumptions strop_id_py_ascii.
 
 (* ---- distinctness is NOT claimed by C09 and does not hold: two different DSDL names (first [A-Za-z_], then any number of [A-Za-z0-9_]) can be given the
    same token -- witness c, any: `if` and `_if` both become `_if` (reproduced on /repo: a DSDL type with fields `if` and `_if`
    yields a C struct with two members `_if`).  What holds, over the full identifier alphabet with no length bound: on clean
-   names (valid, unreserved, pattern-free; for cpp without `__`) strop is the identity and therefore injective. ---- *)
+   names (clean_ascii) strop is the identity and therefore injective. ---- *)
 Theorem strop_injective_refuted :
   exists l ty s1 s2 t, s1 <> s2 /\ valid_ident s1 = true /\ valid_ident s2 = true
                        /\ strop_lang l ty s1 = Ok t /\ strop_lang l ty s2 = Ok t.
@@ -156,10 +213,9 @@ Proof. exact strop_injective_refuted_thm. Qed.
 Print Assumptions strop_injective_refuted.
 
 Theorem strop_injective_partial : forall l (ty s1 s2 : str),
-  str_eqb (lower ty) ty_all = false -> clean_lang l ty s1 = true -> clean_lang l ty s2 = true ->
-  (l = LCpp -> has_dunder s1 = false /\ has_dunder s2 = false) ->
+  str_eqb (lower ty) ty_all = false -> clean_ascii l ty s1 = true -> clean_ascii l ty s2 = true ->
   strop_lang l ty s1 = strop_lang l ty s2 -> s1 = s2.
-Proof. exact strop_injective_on_clean_thm. Qed.
+Proof. exact strop_injective_on_clean_ascii_thm. Qed.
 Print Assumptions strop_injective_partial.
 
 (* ---- determinism / cache isolation.  strop is a function of (configuration, type, token).  The only memoisation on the path
@@ -207,11 +263,11 @@ Proof. vm_compute; reflexivity. Qed.
 Example nv_py_encode : strop_py ty_any [49] = Ok [122; 88; 48; 48; 51; 49].
 Proof. vm_compute; reflexivity. Qed.
 (* identity hypotheses are satisfiable: "qz_7" is clean for every language; "a__b" is clean for cpp but has a dunder *)
-Example nv_clean_c : clean_lang LC ty_any [113; 122; 95; 55] = true /\ strop_c ty_any [113; 122; 95; 55] = Ok [113; 122; 95; 55].
+Example nv_clean_c : clean_ascii LC ty_any [113; 122; 95; 55] = true /\ strop_c ty_any [113; 122; 95; 55] = Ok [113; 122; 95; 55].
 Proof. vm_compute; split; reflexivity. Qed.
-Example nv_clean_cpp : clean_lang LCpp ty_any [113; 122; 95; 55] = true /\ has_dunder [113; 122; 95; 55] = false.
+Example nv_clean_cpp : clean_ascii LCpp ty_any [113; 122; 95; 55] = true /\ has_dunder [113; 122; 95; 55] = false.
 Proof. vm_compute; split; reflexivity. Qed.
-Example nv_clean_py : clean_lang LPy ty_any [113; 122; 95; 55] = true.
+Example nv_clean_py : clean_ascii LPy ty_any [113; 122; 95; 55] = true.
 Proof. vm_compute; reflexivity. Qed.
 (* interleaved calls on the shipped C encoder and the one with prefix _pre_/suffix _post_, cache of 2 entries (evictions) *)
 Example nv_two_encoders :
@@ -227,3 +283,15 @@ Proof. vm_compute; repeat split; reflexivity. Qed.
 (* "__debug__" is in the interpreter table, hence reserved, hence stropped for py *)
 Example nv_py_dunder_builtin : strop_py ty_any [95; 95; 100; 101; 98; 117; 103; 95; 95] = Ok [95; 95; 100; 101; 98; 117; 103; 95; 95; 95].
 Proof. vm_compute; reflexivity. Qed.
+(* `__x` is reserved in C++ (contains `__`): not clean_ascii, and rewritten *)
+Example nv_cpp_dunder_is_reserved_and_rewritten :
+  clean_ascii LCpp ty_any [95; 95; 120] = false /\ strop_cpp ty_any [95; 95; 120] = Ok [122; 88; 48; 48; 53; 70; 122; 88; 48; 48; 53; 70; 120].
+Proof. vm_compute; split; reflexivity. Qed.
+(* U+00E9 is outside the documented alphabet: not valid_ident, encoded to zX00E9 *)
+Example nv_py_non_ascii_is_encoded : valid_ident [233] = false /\ strop_py ty_any [233] = Ok [122; 88; 48; 48; 69; 57].
+Proof. vm_compute; split; reflexivity. Qed.
+(* keywords: `co_yield` is in the independent table and is stropped by c and cpp; soft keyword `match` is left alone by py *)
+Example nv_keyword_tables : In [99; 111; 95; 121; 105; 101; 108; 100] (lang_keywords LCpp)
+  /\ strop_cpp ty_any [99; 111; 95; 121; 105; 101; 108; 100] = Ok [95; 99; 111; 95; 121; 105; 101; 108; 100]
+  /\ strop_py ty_any [109; 97; 116; 99; 104] = Ok [109; 97; 116; 99; 104].
+Proof. vm_compute. repeat split; try reflexivity. tauto. Qed.
